@@ -813,12 +813,14 @@ class LaplaceTransformInversionMethods(object):
         rule = kwargs.get('method','dehoog')
         if type(rule) is str:
             lrule = rule.lower()
+            # (one rule object per call: the objects hold the working data
+            # of the call, and f may itself call invertlaplace)
             if lrule == 'talbot':
-                rule = ctx._fixed_talbot
+                rule = FixedTalbot(ctx)
             elif lrule == 'stehfest':
-                rule = ctx._stehfest
+                rule = Stehfest(ctx)
             elif lrule == 'dehoog':
-                rule = ctx._de_hoog
+                rule = deHoog(ctx)
             else:
                 raise ValueError("unknown invlap algorithm: %s" % rule)
         else:
